@@ -127,8 +127,10 @@ class BlockServer:
             return (code, opts, rep)
         self.b2_count += 1
         mis = self.misbehave if idx2 >= self.misbehave_at else None
-        if mis == "etag-changes":
-            etag = b"v2"
+        if mis in ("etag-changes", "etag-vanishes", "etag-appears"):
+            # the representation changes between blocks; its entity-tag changes with it (another value, no
+            # ETag option any more where there was one, an ETag option where there was none)
+            etag = b"" if mis == "etag-vanishes" else b"v2"
             rep = bytes((x + 1) & 0xFF for x in rep)
         offset = want_num * size
         if offset >= len(rep) and len(rep) > 0 or offset > len(rep):
